@@ -194,6 +194,38 @@ let promise_case (toks : string list) : string =
     "S" ^ (if l = "" then " -" else l)
   | _ -> "BADCASE"
 
+(* ---------------- addresses and ports (C19) ---------------- *)
+
+(* libc stand-ins for the executable instance: strict dotted quads for IPv4 (canonical text is the
+   value); for IPv6 the canonical text computed by the generator (Python ipaddress) is passed in *)
+let strict_quad (h : M.ascii list) : M.ascii list option =
+  let s = String.concat "" (List.map (fun a -> String.make 1 (Char.chr (int_of_ascii a))) h) in
+  match String.split_on_char '.' s with
+  | [ a; b; c; d ] ->
+    let ok x = x <> "" && String.length x <= 3 && String.for_all (fun ch -> ch >= '0' && ch <= '9') x
+               && (String.length x = 1 || x.[0] <> '0') && int_of_string x <= 255 in
+    if ok a && ok b && ok c && ok d then Some h else None
+  | _ -> None
+
+let net_case (toks : string list) : string =
+  match toks with
+  | [ "A"; text; canon6 ] ->
+    let pton6 _ = if canon6 = "-" then None else Some (bytes_of_hex canon6) in
+    (match M.address_init strict_quad pton6 (bytes_of_hex text) with
+     | None -> "A err"
+     | Some a ->
+       let printed = M.print_address (fun x -> x) (fun x -> x) a in
+       let (fam, host) = match a.M.a_ip with M.IP4 q -> (4, q) | M.IP6 q -> (6, q) in
+       let re = match M.address_init strict_quad (fun h -> if Some h = (match a.M.a_ip with M.IP6 q -> Some q | _ -> None) then Some h else pton6 h) printed with
+         | Some b -> if b = a then "same" else "differs"
+         | None -> "err" in
+       Printf.sprintf "A ok %d %s %s %s %s" fam (hex_of_bytes host) (decimal_of_n a.M.a_port) (hex_of_bytes printed) re)
+  | [ "P"; text ] ->
+    (match M.port_of_string (bytes_of_hex text) with
+     | Some n -> "P ok " ^ decimal_of_n n
+     | None -> "P err")
+  | _ -> "BADCASE"
+
 let () =
   let area = Sys.argv.(1) in
   let f = match area with
@@ -203,6 +235,7 @@ let () =
     | "queue" -> queue_case
     | "pconc" -> pconc_case
     | "promise" -> promise_case
+    | "net" -> net_case
     | _ -> failwith ("unknown area " ^ area) in
   try
     while true do
